@@ -135,6 +135,13 @@ def gen_nodes(n, cname):
 PBF_RANGES = {'small': (-60, 60), 'medium': (1 << 27, (1 << 34) - 1), 'negative': (-(1 << 34), -(1 << 27)), 'extreme': ((1 << 62), (1 << 63) - 1)}
 
 
+def h_opl_way_locations(I, job):
+    """way written as OPL with locations_on_ways; a symbolic mask decides which node references carry a location"""
+    mask = I.named('mask', 3); mk = I.concretize(mask, 'location mask')
+    job2 = dict(kind=4, md=31, field=99, values=[9, 1, 5, 6, 7, mk])
+    return h_opl_roundtrip(I, job2)
+
+
 def h_pbf_object(I, job):
     """plain node / way / relation through PBFOutputFormat::node / way / relation and SerializeBlob, then through the reader kernels; dumps must agree"""
     kind = job['kind']; low = job.get('low', 0)
@@ -193,6 +200,9 @@ def harnesses(tier):
         Harness('pbf_dense_block_roundtrip', 'codec', h_pbf_nodes, jobs=jobs, testgen=lambda rnd: [dict(_job=0, **t) for t in gen_nodes(n, 'small')(rnd)],
                 desc='%d nodes with symbolic id / version / timestamp / changeset / uid / visible / location through PrimitiveBlock::add_dense_node + DenseNodes::serialize + SerializeBlob (no compression), then length prefix, decode_blob_header, decode_blob and PBFPrimitiveBlockDecoder: every field comes back identical (or as its default when the metadata option drops it); the reader accepts what the writer wrote' % n,
                 bounds='%d nodes per block; id / version / changeset / uid / visible symbolic inside four magnitude classes; timestamps and coordinates concrete boundary values per class (their x1000/1000 and x100/100 conversions are 64-bit multiply/divide by constants, which bit-blasting does not decide in time: measured 53 s per query) (small / medium / large / extreme incl. the type boundaries and negative deltas) that fix the varint lengths; metadata subsets %s; no user names and tags (string table), no compression' % (n, 'sampled' if q else 'all 16 x visible flag with 2 nodes, the sampled four with 3 nodes'), wall=900 if q else 2400),
+        Harness('opl_way_locations', 'codec', h_opl_way_locations, mode='INT', tests=[dict(mask=7), dict(mask=0), dict(mask=5)],
+                desc='a way with three node references through OPLOutputBlock with locations_on_ways and back through opl_parse_line, for every subset of references that carry a location (an undefined location is a legal value): the reader accepts what the writer wrote and the references come back with exactly those locations',
+                bounds='3 references, 8 location masks; coordinates concrete (text conversion: C13)'),
         Harness('pbf_object_roundtrip', 'codec', h_pbf_object, wall=900,
                 jobs=[dict(kind=0, cls=['small']), dict(kind=0, cls=['extreme'], u32=(1 << 32) - 1), dict(kind=1, cls=['small', 'small', 'small', 'small']), dict(kind=1, cls=['medium', 'small', 'negative', 'medium']), dict(kind=1, cls=['negative', 'medium', 'medium', 'negative'], low=1),
                       dict(kind=2, cls=['small']), dict(kind=2, cls=['medium', 'negative', 'medium', 'small', 'medium'])] + ([] if q else [dict(kind=1, cls=['extreme', 'negative', 'extreme', 'small']), dict(kind=2, cls=['negative', 'medium', 'small', 'negative', 'extreme']), dict(kind=1, cls=['small'], low=1)]),
